@@ -221,6 +221,22 @@ pub fn gen_tree(rng: &mut Rng, cfg: &TreeCfg) -> TreeSpec {
             _ => spec.nodes.push(Node::Fifo { path }),
         }
     }
+    // now and then one entry whose name is exactly NAME_MAX (255) bytes long, or one less:
+    // the longest name there is (whatever the naming style of the tree)
+    if rng.chance(1, 25) {
+        let parent = rng.pick(&dirs).clone();
+        let len = *rng.pick(&[255usize, 255, 254]);
+        let name = format!("N{}", "z".repeat(len - 1));
+        let path = format!("{parent}/{name}");
+        if path.len() <= 3500 && depth_of(&parent) + 1 <= cfg.max_depth.max(1) {
+            if rng.chance(1, 3) {
+                spec.nodes.push(Node::Dir { path: path.clone() });
+                spec.nodes.push(Node::File { path: format!("{path}/in"), size: 1, token: 7, atime_ns: None, mtime_ns: None });
+            } else {
+                spec.nodes.push(Node::File { path, size: 3, token: 0x4e4e4e, atime_ns: None, mtime_ns: None });
+            }
+        }
+    }
     spec
 }
 
